@@ -344,6 +344,58 @@ fn run(case: &Case, dir: &str) -> Verdict {
             return v;
         }
     }
+    // ---- (d) a file created and written by the current code alone conforms to the pinned
+    // layout: the independent reader accepts it (magic, version, field order, element sizes)
+    // and the pinned release reads the same contents
+    let fresh = format!("{}/fresh", dir);
+    match catch(|| current::write_history(&fresh, ps, mix(case.seed, 0xF5E5), 3)) {
+        Ok(Ok(fm)) => {
+            let (mut fb, fl) = simos::file_view(&fresh).unwrap();
+            if let Some(h) = fsck::choose_header(&fb, ps) {
+                let need = h.num_pages.saturating_mul(ps).min(fl) as usize;
+                if fb.len() < need {
+                    fb.resize(need, 0);
+                }
+            }
+            match fsck::check(&fb, fl, ps) {
+                Ok(rep) if rep.errors.is_empty() && diff(&rep.contents, &fm, false).is_none() => {}
+                Ok(rep) => {
+                    let why = rep.errors.first().cloned().unwrap_or_else(|| "contents differ".into());
+                    v.violation = Some(fail("compat-layout", "fresh file", format!("a file created by the current code (page size {}) does not conform to the pinned layout: {}", ps, why)));
+                    return v;
+                }
+                Err(e) => {
+                    v.violation = Some(fail("compat-layout", "fresh file", format!("a file created by the current code (page size {}) does not parse under the pinned layout: {}", ps, e)));
+                    return v;
+                }
+            }
+            match catch(|| pinned::read_all(&fresh, ps)) {
+                Ok(Ok(m)) if diff(&m, &fm, false).is_none() => {
+                    *v.counters.entry("pinned_reads_fresh_current_file".into()).or_default() += 1;
+                }
+                Ok(Ok(m)) => {
+                    v.violation = Some(fail("compat-layout", "fresh file", format!("the pinned release reads different contents from a file created by the current code: {}", diff(&m, &fm, false).unwrap_or_default())));
+                    return v;
+                }
+                Ok(Err(e)) => {
+                    v.violation = Some(fail("compat-layout", "fresh file", format!("the pinned release cannot open a file created by the current code: {}", e)));
+                    return v;
+                }
+                Err(p) => {
+                    v.violation = Some(fail("compat-layout", "fresh file", format!("the pinned release panics on a file created by the current code: {}", p)));
+                    return v;
+                }
+            }
+        }
+        Ok(Err(e)) => {
+            v.aborted = Some(fail("result", "fresh file", e));
+            return v;
+        }
+        Err(p) => {
+            v.aborted = Some(fail("panic", "fresh file", p));
+            return v;
+        }
+    }
     v.sim_events = simos::total_calls();
     let mut h = crate::rng::Fnv::default();
     h.u64(model.digest());
